@@ -26,13 +26,13 @@ Proof.
 Qed.
 
 Lemma cc_key_inj H a b k :
-  injective H -> cc_key H a = Some k -> cc_key H b = Some k -> guard_shift (cc_fields a) (cc_fields b) = false ->
+  injective H -> cc_key H a = Some k -> cc_key H b = Some k -> collide (cc_fields a) (cc_fields b) = false ->
   cc_result a = cc_result b.
 Proof.
   intros Hinj Ka Kb G. unfold cc_key in Ka, Kb.
   destruct (cc_enabled a); [|discriminate]. destruct (cc_enabled b); [|discriminate].
   injection Ka as <-. injection Kb as E. apply hex_inj in E. apply Hinj in E. symmetry in E.
-  apply (no_boundary_shift _ _ G) in E. unfold cc_fields in E. simpl in E.
+  apply (collide_inj _ _ G) in E. unfold cc_fields in E. simpl in E.
   injection E as Ei Es Eu Esc. apply map_FV_inj in Esc.
   unfold cc_result, cc_token. now rewrite Ei, Es, Eu, Esc.
 Qed.
@@ -47,7 +47,7 @@ Proof.
   intros H h Hinj G. rewrite cc_run_arun.
   rewrite cache_transparent_abstract.
   - rewrite map_map. reflexivity.
-  - intros a b k r Ia Ib Ka Kb Fa.
+  - intros a b k r Ia Ib Ka Kb _ Fa.
     apply in_map_iff in Ia as (ca & <- & Ia). apply in_map_iff in Ib as (cb & <- & Ib).
     simpl in *. injection Fa as <-.
     destruct (exists_pair_false _ h ca cb G Ia Ib) as [->|[P _]]; [reflexivity|].
@@ -148,10 +148,10 @@ Lemma jf_key_inj fx5 H s1 c1 q1 s2 c2 q2 :
 Proof.
   intros Hinj E G (Fc & Fs & Fo). unfold jf_key in E. apply hex_inj in E. apply Hinj in E.
   unfold p_jf_F4 in G. apply orb_false_iff in G as [G1 G2].
-  apply (no_boundary_shift _ _ G1) in E. unfold jf_fields in E.
+  apply (collide_inj _ _ G1) in E. unfold jf_fields in E.
   remember (le64 (jf_ttl c1)) as t1. remember (le64 (jf_ttl c2)) as t2.
   simpl in E. injection E as Esg E.
-  apply Hinj in Esg. apply (no_boundary_shift _ _ G2) in Esg. unfold signer_fields in Esg.
+  apply Hinj in Esg. apply (collide_inj _ _ G2) in Esg. unfold signer_fields in Esg.
   assert (Ek : sg_kid s1 = sg_kid s2 /\ jf_iss c1 = jf_iss c2 /\ (fx5 = true -> sg_thumb s1 = sg_thumb s2)).
   { destruct fx5; simpl in Esg; injection Esg; intros; subst; splits; auto; discriminate. }
   destruct Ek as (Ekid & Eiss & Eth).
@@ -177,7 +177,7 @@ Proof.
   intros fx5 H kc s h Hinj G5 Pw.
   destruct (jrun_arun fx5 H kc h s []) as [E1 E2].
   rewrite <- map_map, E1, E2. apply cache_transparent_abstract.
-  intros a b k r Ia Ib Ka Kb Fa.
+  intros a b k r Ia Ib Ka Kb _ Fa.
   apply in_map_iff in Ia as ([[s1 c1] q1] & <- & Ia). apply in_map_iff in Ib as ([[s2 c2] q2] & <- & Ib).
   simpl in *. injection Ka as Ka. injection Kb as Kb.
   destruct (Pw _ _ Ia Ib) as [P F].
@@ -211,56 +211,57 @@ Qed.
 
 (* ------------------------------------------------------------------ RFC 7234 cache of an endpoint *)
 
-Definition hc_areq (fx8 : bool) (H : string -> string) (c : hc_cfg) (x : hc_req) : areq :=
-  {| a_key := if hc_looks_up fx8 c then Some (hc_key H c) else None;
-     a_fresh := (OAllow (hc_result c x), 1); a_store := hc_stores fx8 c; a_recheck := OAllow |}.
+Definition hc_areq (fx8 : bool) (H : string -> string) (w : hc_world) (x : hc_cfg * hc_req) : areq :=
+  {| a_key := if hc_looks_up fx8 (fst x) then Some (hc_key H (fst x)) else None;
+     a_fresh := (OAllow (hc_result w (fst x) (snd x)), 1); a_store := hc_stores fx8 w (fst x); a_recheck := OAllow |}.
 
-Lemma hc_exec_aexec fx8 H c cch x : hc_exec fx8 H c cch x = aexec cch (hc_areq fx8 H c x).
+Lemma hc_exec_aexec fx8 H w cch c q : hc_exec fx8 H w cch c q = aexec cch (hc_areq fx8 H w (c, q)).
 Proof.
   unfold hc_exec, aexec, hc_areq. simpl. destruct (hc_looks_up fx8 c); simpl; [|reflexivity].
   destruct (lookup _ cch); reflexivity.
 Qed.
 
-Lemma hc_run_arun fx8 H c : forall h cch, hc_run fx8 H c cch h = arun cch (map (hc_areq fx8 H c) h).
+Lemma hc_run_arun fx8 H w : forall h cch, hc_run fx8 H w cch h = arun cch (map (hc_areq fx8 H w) h).
 Proof.
-  induction h as [|x h IH]; intro cch; simpl; [reflexivity|].
-  rewrite hc_exec_aexec. destruct (aexec cch (hc_areq fx8 H c x)) as [y c']. now rewrite IH.
+  induction h as [|[c q] h IH]; intro cch; simpl; [reflexivity|].
+  rewrite hc_exec_aexec. destruct (aexec cch (hc_areq fx8 H w (c, q))) as [y c']. now rewrite IH.
 Qed.
 
-(** nothing is ever stored: every look-up is a miss *)
-Lemma arun_nostore : forall l,
-  (forall a, In a l -> a_store a = false) ->
-  map sr_out (arun [] l) = map (fun a => fst (a_fresh a)) l.
+Lemma hc_fields_cfg a b : hc_fields a = hc_fields b -> a = b.
 Proof.
-  induction l as [|a l IH]; intro N; simpl; [reflexivity|].
-  unfold aexec. destruct (a_key a) as [k|]; simpl.
-  - destruct (a_fresh a) as [o n] eqn:F. rewrite (N a (or_introl eq_refl)).
-    replace (match o with OAllow _ => [] | _ => [] end) with (@nil (string * result)) by (destruct o; reflexivity).
-    simpl. f_equal. apply IH. intros b I. apply N. now right.
-  - destruct (a_fresh a) as [o n]. simpl. f_equal. apply IH. intros b I. apply N. now right.
+  destruct a as [u m x], b as [u' m' x']. unfold hc_fields. simpl.
+  destruct (String.eqb_spec x ""), (String.eqb_spec x' ""); simpl; intro E; injection E; intros; subst; try reflexivity;
+    try discriminate; congruence.
 Qed.
 
-(** RFC 7234 cache: outside the guards of C11-F8 (requests that differ in a header the
-    server lists in Vary) and C11-F9 (POST requests with different bodies) every response
-    served from the cache is the one a fresh request would get *)
-Theorem hc_cache_transparent : forall fx8 H c h,
-  g_F8 fx8 c h = false -> g_F9 fx8 c h = false ->
-  map sr_out (hc_run fx8 H c [] h) = map (fun x => OAllow (hc_result c x)) h.
+(** RFC 7234 cache: for a collision-free SHA-256 and every history of requests to any endpoints, outside the
+    guards of C11-F4 (url | method | Authorization shifted), C11-F8 (requests that differ in a header the server
+    lists in Vary) and C11-F9 (POST requests with different bodies) every response served from the cache is the
+    one a fresh request would get *)
+Theorem hc_cache_transparent : forall fx8 H w h,
+  injective H -> g_hc_F4 h = false -> g_F8 fx8 w h = false -> g_F9 fx8 w h = false ->
+  map sr_out (hc_run fx8 H w [] h) = map (fun x => OAllow (hc_result w (fst x) (snd x))) h.
 Proof.
-  intros fx8 H c h G8 G9. rewrite hc_run_arun. unfold g_F8 in G8. unfold g_F9 in G9.
-  destruct (hc_stores fx8 c) eqn:S; simpl in G8, G9.
-  - rewrite cache_transparent_abstract; [now rewrite map_map|].
-    intros a b k r Ia Ib _ _ Fa.
-    apply in_map_iff in Ia as (xa & <- & Ia). apply in_map_iff in Ib as (xb & <- & Ib).
-    simpl in *. injection Fa as <-.
-    destruct (exists_pair_false _ h xa xb G8 Ia Ib) as [->|[P8 _]]; [reflexivity|].
-    apply negb_false_iff in P8. apply String.eqb_eq in P8.
-    unfold hc_result, hc_body. rewrite P8.
-    destruct (hc_is_post c) eqn:Po; simpl in G9; [|reflexivity].
-    destruct (exists_pair_false _ h xa xb G9 Ia Ib) as [->|[P9 _]]; [reflexivity|].
-    apply negb_false_iff in P9. apply String.eqb_eq in P9. now rewrite P9.
-  - rewrite arun_nostore; [now rewrite map_map|].
-    intros a I. apply in_map_iff in I as (x & <- & _). exact S.
+  intros fx8 H w h Hinj G4 G8 G9. rewrite hc_run_arun.
+  rewrite cache_transparent_abstract; [now rewrite map_map|].
+  intros a b k r Ia Ib Ka Kb Sa Fa.
+  apply in_map_iff in Ia as ([c0 q0] & <- & Ia). apply in_map_iff in Ib as ([c1 q1] & <- & Ib).
+  simpl in *. destruct (hc_looks_up fx8 c0); [|discriminate]. destruct (hc_looks_up fx8 c1); [|discriminate].
+  injection Ka as Ka. injection Kb as Kb. injection Fa as <-.
+  assert (Ec : c0 = c1).
+  { apply hc_fields_cfg.
+    destruct (exists_pair_false _ h (c0, q0) (c1, q1) G4 Ia Ib) as [E|[P _]]; [now injection E as -> _|].
+    simpl in P. apply (collide_inj _ _ P). apply Hinj. apply hex_inj. unfold hc_key in *. congruence. }
+  subst c1.
+  destruct (exists_pair_false _ h (c0, q0) (c0, q1) G8 Ia Ib) as [E|[P8 _]]; [injection E as ->; reflexivity|].
+  destruct (exists_pair_false _ h (c0, q0) (c0, q1) G9 Ia Ib) as [E|[P9 _]]; [injection E as ->; reflexivity|].
+  unfold p_F8, p_F9, hc_same_key in P8, P9. simpl in P8, P9.
+  assert (Sk : flds_eqb (hc_fields c0) (hc_fields c0) = true) by now apply flds_eqb_eq.
+  rewrite Sk, Sa in P8, P9. simpl in P8, P9.
+  apply negb_false_iff in P8. apply String.eqb_eq in P8.
+  unfold hc_result, hc_body. rewrite P8.
+  destruct (hc_is_post c0); simpl in P9; [|reflexivity].
+  apply negb_false_iff in P9. apply String.eqb_eq in P9. now rewrite P9.
 Qed.
 
 Lemma exists_pair_never {A} (f : A -> A -> bool) : (forall a b, f a b = false) -> forall l, exists_pair f l = false.
@@ -269,31 +270,37 @@ Proof.
   clear IH. induction l as [|y l IH]; [reflexivity|]. simpl. now rewrite !F, IH.
 Qed.
 
-(** with the repair no guard is left: the RFC 7234 cache is transparent on every history *)
-Lemma repaired_no_guard c h : g_F8 true c h = false /\ g_F9 true c h = false.
+(** with the repair 12fdf68 the guards of F8 and F9 never fire *)
+Lemma repaired_no_guard w h : g_F8 true w h = false /\ g_F9 true w h = false.
 Proof.
-  unfold g_F8, g_F9, hc_stores. simpl.
-  destruct (hc_cacheable c); simpl; auto.
-  destruct (hc_vary c) as [|v vs] eqn:V; simpl; auto.
-  destruct (hc_is_post c); simpl; auto. split; auto.
-  apply exists_pair_never. intros a b. unfold hc_vary_part. now rewrite V.
+  split; apply exists_pair_never; intros [c q] [c' q']; unfold p_F8, p_F9, hc_stores, hc_vary_part; simpl.
+  - destruct (hc_cacheable w c); simpl; auto.
+    destruct (hc_vary w c) as [|v vs] eqn:V; simpl; auto.
+    destruct (hc_is_post c); simpl; auto.
+    destruct (hc_same_key (c, q) (c', q')) eqn:S; simpl; auto.
+    unfold hc_same_key in S. simpl in S. apply flds_eqb_eq in S. apply hc_fields_cfg in S. subst c'. now rewrite V.
+  - destruct (hc_cacheable w c); simpl; auto.
+    destruct (hc_vary w c); simpl; auto. destruct (hc_is_post c); simpl; auto.
 Qed.
 
-Theorem hc_cache_transparent_repaired : forall H c h,
-  map sr_out (hc_run true H c [] h) = map (fun x => OAllow (hc_result c x)) h.
-Proof. intros H c h. destruct (repaired_no_guard c h). now apply hc_cache_transparent. Qed.
+(** the RFC 7234 cache as it is since 12fdf68: transparent on every history of requests to any endpoints,
+    for a collision-free SHA-256 and outside the guard of C11-F4 *)
+Theorem hc_cache_transparent_repaired : forall H w h,
+  injective H -> g_hc_F4 h = false ->
+  map sr_out (hc_run true H w [] h) = map (fun x => OAllow (hc_result w (fst x) (snd x))) h.
+Proof. intros H w h Hi G. destruct (repaired_no_guard w h). now apply hc_cache_transparent. Qed.
 
-Definition w_hc (method : string) (vary : list string) : hc_cfg :=
-  {| hc_url := "http://ctx/h/x"; hc_method := method; hc_vary := vary; hc_cacheable := true |}.
+Definition w_hc (method : string) : hc_cfg := {| hc_url := "http://ctx/h/x"; hc_method := method; hc_auth := "" |}.
 
 (** C11-F8: the response fetched for X-User: alice — which the server declares to
     vary with X-User — is served to the request with X-User: bobby *)
 Theorem F8_refuted :
-  exists c a b, g_F8 false c [a; b] = true /\
-    forall H, map sr_out (hc_run false H c [] [a; b]) <> map (fun x => OAllow (hc_result c x)) [a; b].
+  exists w a b, g_F8 false w [a; b] = true /\
+    forall H, map sr_out (hc_run false H w [] [a; b]) <> map (fun x => OAllow (hc_result w (fst x) (snd x))) [a; b].
 Proof.
-  exists (w_hc "GET" ["X-User"]), {| hq_headers := [("X-User", "alice")]; hq_body := "" |},
-         {| hq_headers := [("X-User", "bobby")]; hq_body := "" |}.
+  exists [("http://ctx/h/x", (["X-User"], true))],
+         (w_hc "GET", {| hq_headers := [("X-User", "alice")]; hq_body := "" |}),
+         (w_hc "GET", {| hq_headers := [("X-User", "bobby")]; hq_body := "" |}).
   split; [reflexivity|].
   intros H E. cbn [hc_run] in E. unfold hc_exec in E. simpl in E. rewrite String.eqb_refl in E. simpl in E.
   discriminate.
@@ -301,10 +308,12 @@ Qed.
 
 (** C11-F9: a POST with the body p=bobby is answered with the stored response to the POST with the body p=alice *)
 Theorem F9_refuted :
-  exists c a b, g_F9 false c [a; b] = true /\ g_F8 false c [a; b] = false /\
-    forall H, map sr_out (hc_run false H c [] [a; b]) <> map (fun x => OAllow (hc_result c x)) [a; b].
+  exists w a b, g_F9 false w [a; b] = true /\ g_F8 false w [a; b] = false /\
+    forall H, map sr_out (hc_run false H w [] [a; b]) <> map (fun x => OAllow (hc_result w (fst x) (snd x))) [a; b].
 Proof.
-  exists (w_hc "POST" []), {| hq_headers := []; hq_body := "p=alice" |}, {| hq_headers := []; hq_body := "p=bobby" |}.
+  exists [("http://ctx/h/x", ([], true))],
+         (w_hc "POST", {| hq_headers := []; hq_body := "p=alice" |}),
+         (w_hc "POST", {| hq_headers := []; hq_body := "p=bobby" |}).
   splits; try reflexivity.
   intros H E. cbn [hc_run] in E. unfold hc_exec in E. simpl in E. rewrite String.eqb_refl in E. simpl in E.
   discriminate.
@@ -320,7 +329,7 @@ Proof.
   destruct (jk_enabled c); [|discriminate]. destruct (jk_enabled c'); [|discriminate]. simpl in G.
   apply orb_false_iff in G as [G _].
   injection K as <-. injection K' as E. apply hex_inj in E. apply Hinj in E. symmetry in E.
-  apply (no_boundary_shift _ _ G) in E. unfold jk_fields in E. injection E as _ Eu Ek. auto.
+  apply (collide_inj _ _ G) in E. unfold jk_fields in E. injection E as _ Eu Ek. auto.
 Qed.
 
 Lemma jk_lookup_ext w c t c' t' :
@@ -349,11 +358,7 @@ Proof.
           - apply in_or_app; auto.
           - apply in_or_app; right; left; reflexivity.
           - injection E as -> ->. unfold p_jk_F4. simpl.
-            assert (S : forall f, guard_shift f f = false).
-            { intro f. unfold guard_shift. induction f as [|x f IHf]; [reflexivity|].
-              apply orb_false_iff in IHf as [I1 I2]. apply negb_false_iff in I1. simpl.
-              assert (Sx : fld_same_shape x x = true) by (destruct x; simpl; auto; apply Nat.eqb_refl).
-              rewrite Sx, I1, Nat.eqb_refl. simpl. exact I2. }
+            assert (S : forall f, collide f f = false) by (intro f; apply collide_refl).
             rewrite !S. now rewrite andb_false_r. }
         destruct (jk_key_inj H c' t' c t k Hinj K' K P) as [Eu Ek].
         unfold jk_fresh. rewrite <- (jk_lookup_ext w c' t' c t Eu Ek), Lk. reflexivity.
